@@ -47,6 +47,28 @@ func intTuples(vals []int, k int) [][]int {
 	return out
 }
 
+// c05Bigs: component values at which width- and magnitude-dependent shortcuts change behaviour.
+func c05Bigs(lvl int) []int {
+	if lvl > 0 {
+		return []int{10, 65535, 4294967295}
+	}
+	return []int{10, 65535}
+}
+
+// bigTuples: every k-tuple over {0,1} with exactly one position replaced by a big value.
+func bigTuples(k, lvl int) [][]int {
+	var out [][]int
+	for _, b := range c05Bigs(lvl) {
+		for pos := 0; pos < k; pos++ {
+			for _, t := range intTuples([]int{0, 1}, k-1) {
+				u := append(append(append([]int{}, t[:pos]...), b), t[pos:]...)
+				out = append(out, u)
+			}
+		}
+	}
+	return out
+}
+
 func pad3(t []int) (int, int, int) {
 	x := []int{0, 0, 0}
 	copy(x, t)
@@ -85,9 +107,11 @@ func c05Instances(name string, lvl int) []c05Inst {
 	}
 	var out []c05Inst
 	add := func(i c05Inst) { out = append(out, i) }
-	t3 := intTuples(vals, 3)
-	t2 := intTuples(vals, 2)
-	t1 := intTuples(vals, 1)
+	// small tuples plus tuples over {0,1} with one multi-digit / 2^16 / 2^32 boundary component
+	tuples := func(k int) [][]int { return append(intTuples(vals, k), bigTuples(k, lvl)...) }
+	t3 := tuples(3)
+	t2 := tuples(2)
+	t1 := tuples(1)
 	sem := func(t []int) string { a, b, c := pad3(t); return v3(a, b, c) }
 	switch name {
 	case "npm":
@@ -190,7 +214,7 @@ func c05Instances(name string, lvl int) []c05Inst {
 	case "gem":
 		// ~> drops the last segment and bumps the one before it
 		for k := 1; k <= 4; k++ {
-			for _, t := range intTuples(vals, k) {
+			for _, t := range tuples(k) {
 				if k == 4 && (t[0] > 1 || (lvl == 0 && t[1] > 1)) {
 					continue
 				}
@@ -219,7 +243,7 @@ func c05Instances(name string, lvl int) []c05Inst {
 		}
 	case "pypi":
 		for k := 2; k <= 4; k++ {
-			for _, t := range intTuples(vals, k) {
+			for _, t := range tuples(k) {
 				if k == 4 && (t[0] > 1 || (lvl == 0 && t[1] > 1)) {
 					continue
 				}
@@ -233,7 +257,7 @@ func c05Instances(name string, lvl int) []c05Inst {
 			}
 		}
 		for k := 1; k <= 3; k++ {
-			for _, t := range intTuples(vals, k) {
+			for _, t := range tuples(k) {
 				base := joinInts(t)
 				hi := append(append([]int{}, t[:k-1]...), t[k-1]+1)
 				add(c05Inst{construct: fmt.Sprintf("==%d.* prefix", k), rng: "==" + base + ".*", lo: base, loIncl: true, hi: joinInts(hi), hiCore: hi})
@@ -282,6 +306,13 @@ func c05Probes(name string, lvl int) (strs []string, cores [][]int, pre []bool) 
 	grid := []int{0, 1, 2, 3, 9, 10}
 	if lvl > 0 {
 		grid = []int{0, 1, 2, 3, 8, 9, 10, 11}
+	} else {
+		grid = append(grid, 11)
+	}
+	for _, b := range c05Bigs(lvl) {
+		if b > 11 {
+			grid = append(grid, b-1, b, b+1)
+		}
 	}
 	var preSuffix []string
 	switch name {
@@ -301,7 +332,7 @@ func c05Probes(name string, lvl int) (strs []string, cores [][]int, pre []bool) 
 	for _, t := range intTuples(grid, 3) {
 		s := joinInts(t)
 		strs, cores, pre = append(strs, s), append(cores, t), append(pre, false)
-		if t[1] <= 3 && t[2] <= 3 {
+		if (t[1] <= 3 || t[1] > 11) && (t[2] <= 3 || t[2] > 11) {
 			for _, p := range preSuffix {
 				strs, cores, pre = append(strs, s+p), append(cores, t), append(pre, true)
 			}
@@ -512,7 +543,7 @@ func init() {
 				"dont_care_points":              r.Counters["dont_care"],
 			}
 		},
-		Rule:        "for each of npm, cargo, composer, conan, gem, hex, pypi, nuget, maven: every documented shorthand construct x every base tuple over {0,1,2} (thorough {0,1,2,9}) of every documented arity (zeros in leading positions included; pre-release bases where documented) is parsed and evaluated on a probe grid {0,1,2,3,9,10}^3 (thorough {0,1,2,3,8,9,10,11}^3) as release / lowest / middle pre-release plus 2- and 4-component probes; the expected membership is the documented interval [lo,hi) evaluated with the ecosystem's own Compare. Don't-care (counted, not checked): pre-releases of an exclusive upper bound where the documentation states no pre-release floor (cargo, composer, conan, gem, hex, pypi). Composer probes are stable versions, pypi probes final or post releases. All ranges of a unit are parsed before any is evaluated. distinct_nontrivial = evaluations whose expected membership is true.",
+		Rule:        "for each of npm, cargo, composer, conan, gem, hex, pypi, nuget, maven: every documented shorthand construct x every base tuple over {0,1,2} (thorough {0,1,2,9}) of every documented arity, plus every tuple over {0,1} with one component replaced by 10 or 65535 (thorough also 4294967295) (zeros in leading positions included; pre-release bases where documented) is parsed and evaluated on a probe grid {0,1,2,3,9,10,11,65534,65535,65536}^3 (thorough {0,1,2,3,8,9,10,11,65534..65536,4294967294..4294967296}^3) as release / lowest / middle pre-release plus 2- and 4-component probes; the expected membership is the documented interval [lo,hi) evaluated with the ecosystem's own Compare. Don't-care (counted, not checked): pre-releases of an exclusive upper bound where the documentation states no pre-release floor (cargo, composer, conan, gem, hex, pypi). Composer probes are stable versions, pypi probes final or post releases. All ranges of a unit are parsed before any is evaluated. distinct_nontrivial = evaluations whose expected membership is true.",
 		Assumptions: []string{"the desugaring table is written from each ecosystem's documentation as restated in the property (npm ^1.2.3 = >=1.2.3 <2.0.0-0, gem ~>1.2.3 = >=1.2.3 <1.3, hex ~>2.1 = >=2.1.0 <3.0.0, pypi ~=2.2 = >=2.2 <3.0, ...)", "maven bare versions (soft requirements) are not claimed"},
 	})
 }
